@@ -364,8 +364,42 @@ func TestC17_RoundTripMetrics(t *testing.T) {
 				t.Fatalf("%d x %v counters, at +%v %s = %d, outside [%d,%d] (events within the last (N-1)r / Nr)\n%s", n, r, now, what, got, lo, hi, strings.Join(log, "\n"))
 			}
 		}
+		type exported struct {
+			m            *memmetrics.RTMetrics
+			all, neterr  []ev
+			perCode      map[int][]ev
+			takenAt      time.Duration
+			sweptAlready bool
+		}
+		var exports []*exported
+		swept := false
+		checkOn := func(x *memmetrics.RTMetrics, who string, all, neterr []ev, per map[int][]ev) {
+			check(who+"TotalCount()", x.TotalCount(), all)
+			check(who+"NetworkErrorCount()", x.NetworkErrorCount(), neterr)
+			counts := x.StatusCodesCounts()
+			for c, evs := range per {
+				check(fmt.Sprintf("%sStatusCodesCounts()[%d]", who, c), counts[c], evs)
+			}
+		}
 		for i := rapid.IntRange(3, 50).Draw(t, "nops"); i > 0; i-- {
-			switch rapid.IntRange(0, 7).Draw(t, "op") {
+			switch rapid.IntRange(0, 9).Draw(t, "op") {
+			case 8: // a burst of many different status codes (a scanner, an API with codes of its own), each once
+				if swept {
+					break
+				}
+				swept = true
+				for c := 210; c < 280; c++ {
+					m.Record(c, time.Millisecond)
+					note(c, 1)
+				}
+				log = append(log, fmt.Sprintf("+%v sweep(70 distinct codes)", now))
+			case 9: // a copy is taken (Export); it is read later and ages like the original
+				cp := &exported{m: m.Export(), all: append([]ev(nil), all...), neterr: append([]ev(nil), neterr...), perCode: map[int][]ev{}, takenAt: now}
+				for c, evs := range perCode {
+					cp.perCode[c] = append([]ev(nil), evs...)
+				}
+				exports = append(exports, cp)
+				log = append(log, fmt.Sprintf("+%v export", now))
 			case 0, 1, 2:
 				code := rapid.SampledFrom(codes).Draw(t, "code")
 				m.Record(code, time.Duration(rapid.IntRange(1, 900).Draw(t, "latMs"))*time.Millisecond)
@@ -394,14 +428,15 @@ func TestC17_RoundTripMetrics(t *testing.T) {
 				now += d
 				log = append(log, fmt.Sprintf("adv(%v)", d))
 			default:
-				check("TotalCount()", m.TotalCount(), all)
-				check("NetworkErrorCount()", m.NetworkErrorCount(), neterr)
-				counts := m.StatusCodesCounts()
-				for _, c := range codes {
-					check(fmt.Sprintf("StatusCodesCounts()[%d]", c), counts[c], perCode[c])
+				checkOn(m, "", all, neterr, perCode)
+				for k, cp := range exports {
+					checkOn(cp.m, fmt.Sprintf("copy %d (exported at +%v): ", k+1, cp.takenAt), cp.all, cp.neterr, cp.perCode)
 				}
 				log = append(log, fmt.Sprintf("+%v read", now))
 			}
+		}
+		for k, cp := range exports {
+			checkOn(cp.m, fmt.Sprintf("copy %d (exported at +%v): ", k+1, cp.takenAt), cp.all, cp.neterr, cp.perCode)
 		}
 		check("TotalCount()", m.TotalCount(), all)
 		counts := m.StatusCodesCounts()
@@ -414,6 +449,12 @@ func TestC17_RoundTripMetrics(t *testing.T) {
 		}
 		if n != 10 || r != time.Second {
 			cl = append(cl, "non-default-geometry")
+		}
+		if swept {
+			cl = append(cl, "70-distinct-status-codes")
+		}
+		if len(exports) > 0 {
+			cl = append(cl, "exported-copy-read-later")
 		}
 		vstat.Case(fmt.Sprintf("rt|%d|%v|%v|%s", n, r, phase, strings.Join(log, ";")), readsDiffer || appended > 0, cl, map[string]any{"buckets": n, "resolution": r.String(), "history": log})
 	})
